@@ -941,6 +941,386 @@ def couple_impl(a):
                 sameclass=max(sum(1 for j in order if cls[j] == c) for c in set(cls)) if order else 0)
 
 
+# ------------------------------------------------------------------ (H) grain-growth histories: load / reset / solve / coupled host step
+def gghist_impl(a):
+    """(H) one history of LoadDistribution(data) / LoadDistributionFunction(f) / reset() / solve(short) / host step (the model
+    attached to a stand-in host with the real coupling list) on a real GrainGrowthModel; determined by a['s'], a['coupled'].
+    Oracle after EVERY operation: grain volume 1 after every load and after every reset, conserved over every solve / host
+    step, clock advanced by the solve time; reset() gives back exactly the distribution and grid of the last load (snapshot
+    taken right after the load) and clock [0].  Returns the violations and the protocol line of the history."""
+    import random
+    vlib.use_repo()
+    from kawin.solver import SolverType
+    rng = random.Random(a['s'])
+    r = np.random.default_rng(rng.getrandbits(32))
+    cMin = 10 ** rng.uniform(-7.5, -6.5)
+    ga = dict(cMin=cMin, cMax=cMin * 100, bins=rng.choice([20, 30, 50]), gbe=0.5, M=10 ** rng.uniform(-15, -13), alpha=1.0)
+    g = make_gg(ga)
+    size0, bounds0 = g.pbm.PSDsize.copy(), g.pbm.PSDbounds.copy()
+    coupled = bool(a.get('coupled'))
+    host = None
+    if coupled:
+        host = make_standin_host(1, rng.randint(3, 8), r)
+        host.addCouplingModel(g)
+        g.solverType = SolverType.EXPLICITEULER if rng.random() < 0.5 else SolverType.RK4
+    tsc = (cMin * 100 * 0.45) ** 2 / (ga['M'] * ga['gbe'])
+    out, ops, toks, states = [], [], [], []
+    snap, loader, last = None, None, 'init'
+
+    def vol():
+        return float(g.pbm.ThirdMoment())
+
+    def fail(key, what, obs=None, req=None):
+        out.append((key, what, obs, req))
+
+    nops = rng.randint(4, 9)
+    for i in range(nops):
+        if snap is None:
+            kind = rng.choice(['L', 'F']) if (i > 0 or rng.random() < 0.9) else 'R'
+        else:
+            kind = rng.choices(['L', 'F', 'R', 'S', 'H' if coupled else 'S'], [1, 1, 3, 3, 2])[0]
+        where = 'operation %d (%s) after %r' % (i + 1, kind, ' '.join(ops))
+        if kind in 'LF':
+            mu = math.log(cMin * 100 * rng.uniform(0.2, 0.6)); sg = rng.uniform(0.15, 0.4)
+            if kind == 'L':
+                data = r.lognormal(mu, sg, rng.choice([300, 5000, 50000]))
+                if rng.random() < 0.3:          # measured sizes outside the grid are not counted
+                    data = np.concatenate([data, r.uniform(cMin * 100, cMin * 300, 20), r.uniform(cMin * 0.1, cMin, 20)])
+                raw = np.histogram(data, bounds0)[0].astype(float)
+                g.LoadDistribution(data)
+                loader = 'LoadDistribution'
+            else:
+                amp = 10 ** rng.uniform(-3, 20)
+                f = lambda R, mu=mu, sg=sg, amp=amp: amp * np.exp(-0.5 * ((np.log(R) - mu) / sg) ** 2) / R
+                raw = np.asarray(f(size0), dtype=float)
+                g.LoadDistributionFunction(f)
+                loader = 'LoadDistributionFunction'
+            ops.append(kind); toks.append('L %s' % enc_list(raw))
+            v = vol()
+            if not close(v, 1.0, 1e-9):
+                fail('gg-volume:after-load:%s' % loader, '%s: grain volume right after %s is %r' % (where, loader, v), v, 1.0)
+            snap = (g.pbm.PSD.copy(), g.pbm.PSDbounds.copy())
+            last = 'load'
+        elif kind == 'R':
+            g.reset()
+            ops.append('R'); toks.append('R')
+            if snap is not None:
+                v = vol()
+                by = 'loaded-by-%s' % loader
+                if not close(v, 1.0, 1e-9):
+                    fail('gg-volume:after-reset:%s' % by, '%s: grain volume right after reset() is %r (distribution %s)' % (where, v, by), v, 1.0)
+                if g.pbm.PSD.shape != snap[0].shape or not np.array_equal(g.pbm.PSD, snap[0]):
+                    same = g.pbm.PSD.shape == snap[0].shape
+                    fail('gg-reset-not-loaded-state:distribution:%s' % by, '%s: the distribution after reset() is not the one the load left (sum %r vs %r)'
+                         % (where, float(np.sum(g.pbm.PSD)), float(np.sum(snap[0]))),
+                         [float(x) for x in g.pbm.PSD[np.nonzero(g.pbm.PSD != snap[0])[0][:3]]] if same else list(g.pbm.PSD.shape),
+                         [float(x) for x in snap[0][np.nonzero(g.pbm.PSD != snap[0])[0][:3]]] if same else list(snap[0].shape))
+                if g.pbm.PSDbounds.shape != snap[1].shape or not np.array_equal(g.pbm.PSDbounds, snap[1]):
+                    fail('gg-reset-not-loaded-state:grid:%s' % by, '%s: the grid after reset() is not the one the load left' % where,
+                         [len(g.pbm.PSDbounds), float(g.pbm.PSDbounds[0]), float(g.pbm.PSDbounds[-1])], [len(snap[1]), float(snap[1][0]), float(snap[1][-1])])
+                if len(g.pbm.PSDsize) != len(g.pbm.PSD) or not np.array_equal(g.pbm.PSDsize, 0.5 * (g.pbm.PSDbounds[1:] + g.pbm.PSDbounds[:-1])):
+                    fail('gg-reset-not-loaded-state:class-centres:%s' % by, '%s: PSDsize after reset() does not belong to the restored grid' % where)
+            if list(np.asarray(g.time, dtype=float)) != [0.0] or len(g.avgR) != 1:
+                fail('gg-reset-not-loaded-state:clock', '%s: clock after reset() is %r, %d mean-size entries' % (where, [float(x) for x in g.time][-3:], len(g.avgR)), None, [0.0])
+            last = 'reset'
+        else:
+            dt = rng.uniform(0.02, 0.2) * tsc
+            v0, t0, n0 = vol(), float(g.time[-1]), len(g.time)
+            if kind == 'S':
+                g.solve(dt, solverType=SolverType.EXPLICITEULER if rng.random() < 0.5 else SolverType.RK4)
+            else:
+                host.setTimeInfo(float(host.pData.time[-1]), dt)
+                host.hostStep(dt, [rng.choice(['empty', 'pop', 'single'])])
+            ops.append(kind)
+            toks.append('E %s %s %s %s' % (enc_list(g.pbm.PSD), enc_list(g.pbm.PSDsize), enc_list(g.pbm.PSDbounds), f2b(float(g.time[-1]))))
+            v1 = vol()
+            how = 'solve' if kind == 'S' else 'coupled-host-step'
+            if not close(v1, v0, 1e-9):
+                fail('gg-volume:not-conserved-over-%s:first-after-%s' % (how, last), '%s: grain volume %r before and %r after the %s (%d steps)'
+                     % (where, v0, v1, how, len(g.time) - n0), v1, v0)
+            if not close(float(g.time[-1]), t0 + dt, 1e-9) or len(g.time) <= n0 or len(g.time) != len(g.avgR):
+                fail('gg-clock:%s' % how, '%s: clock %r after a %s of %r from %r (%d new entries, %d mean-size entries)'
+                     % (where, float(g.time[-1]), how, dt, t0, len(g.time) - n0, len(g.avgR) - n0), float(g.time[-1]), t0 + dt)
+            last = 'solve'
+        states.append((g.pbm.PSD.copy(), g.pbm.PSDbounds.copy(), float(g.time[-1]), vol()))
+        if out:
+            break
+    line = 'c18.ggload 0 %s %s %d %s' % (enc_list(size0), enc_list(bounds0), len(toks), ' '.join(toks))
+    return dict(out=out, ops=ops, line=line, states=states, bins=ga['bins'], coupled=coupled)
+
+
+# ------------------------------------------------------------------ (I) host histories: attach / clear / host.reset() / solve calls
+def make_coupling_model(kd, rng, tshort=False):
+    """a real StrengthModel / GrainGrowthModel with random parameters, or a recorder"""
+    vlib.use_repo()
+    from kawin.solver import SolverType
+    if kd == 'strength':
+        sm = SM()()
+        th = rng.choice([90.0, 0.0, rng.uniform(0, 90)])
+        sm.setDislocationParameters(rng.uniform(2e10, 1e11), rng.uniform(2e-10, 3e-10), rng.uniform(0.2, 0.4), theta=th)
+        if rng.random() < 0.7:
+            sm.setCoherencyParameters(10 ** rng.uniform(-3, -2))
+        ex = rng.choice([1, 2 / 3, 0.5])
+        sm.setSolidSolutionStrength({'ZR': rng.uniform(1e7, 1e9), 'A': rng.uniform(1e7, 1e9), 'C': rng.uniform(1e7, 1e9)}, ex)
+        return sm, {'kind': kd, 'theta': th, 'ssexp': ex}
+    if kd == 'grain':
+        cMin = 10 ** rng.uniform(-7.5, -6.5)
+        ga = dict(cMin=cMin, cMax=cMin * 100, bins=rng.choice([20, 30]), gbe=0.5, M=10 ** rng.uniform(-15, -13), alpha=1.0)
+        g = make_gg(ga)
+        mu = math.log(cMin * 100 * rng.uniform(0.3, 0.6)); sg = rng.uniform(0.15, 0.4)
+        if rng.random() < 0.5:
+            g.LoadDistribution(np.random.default_rng(rng.getrandbits(32)).lognormal(mu, sg, rng.choice([2000, 50000])))
+            ld = 'LoadDistribution'
+        else:
+            g.LoadDistributionFunction(lambda R, mu=mu, sg=sg: np.exp(-0.5 * ((np.log(R) - mu) / sg) ** 2) / R)
+            ld = 'LoadDistributionFunction'
+        g.solverType = SolverType.EXPLICITEULER if rng.random() < 0.5 else SolverType.RK4
+        g._tscale = (cMin * 100 * 0.45) ** 2 / (ga['M'] * ga['gbe'])
+        return g, {'kind': kd, 'M': ga['M'], 'bins': ga['bins'], 'loader': ld}
+    return (RecA() if kd == 'recA' else RecB()), {'kind': kd}
+
+
+def hhist_impl(a):
+    """(I) one history of addCouplingModel / clearCouplingModels / host.reset() / reset() of a coupled grain-growth model /
+    host.solve (several calls) IN ANY ORDER on a real host; determined by a['s'], a['host'].
+    host 'kwn': a real Al-Zr PrecipitateModel with real StrengthModels / GrainGrowthModels / recorders;
+    host 'graingrowth': a real GrainGrowthModel with recorders.  A model counts as attached from addCouplingModel until
+    the USER calls clearCouplingModels (host.reset() rewinds the results only: PrecipitateBase.reset / GrainGrowthModel.reset
+    do not touch couplingModels).  Oracle after EVERY host step (observer on the host's postProcess): every attached model
+    received exactly one update; StrengthModel: exactly one new entry in rss / ls / solid-solution history (plus the initial
+    row at its first update); GrainGrowthModel: clock advanced by the host step (= host time elapsed since its attachment
+    or its own reset()), grain volume 1; nobody else was updated."""
+    import random
+    import kwnruns
+    vlib.use_repo()
+    from kawin.solver import SolverType
+    rng = random.Random(a['s'])
+    hostkind = a['host']
+    out = []
+    if hostkind == 'kwn':
+        pbm = dict(cMin=1e-10, cMax=1e-8, bins=12, minBins=8, maxBins=20)
+        host = kwnruns.build_binary(x0=6e-3, T=823.15, **pbm)
+        kinds = ['strength', 'grain'] + [rng.choice(['strength', 'grain', 'recA']) for _ in range(rng.randint(0, 2))]
+    else:
+        cMin = 10 ** rng.uniform(-7.5, -6.5)
+        ha = dict(cMin=cMin, cMax=cMin * 100, bins=rng.choice([30, 50]), gbe=0.5, M=10 ** rng.uniform(-15, -13), alpha=1.0)
+        host = make_gg(ha)
+        mu = math.log(cMin * 100 * rng.uniform(0.3, 0.6)); sg = rng.uniform(0.15, 0.4)
+        if rng.random() < 0.5:
+            host.LoadDistribution(np.random.default_rng(rng.getrandbits(32)).lognormal(mu, sg, 20000))
+        else:
+            host.LoadDistributionFunction(lambda R: np.exp(-0.5 * ((np.log(R) - mu) / sg) ** 2) / R)
+        hdt = rng.uniform(0.02, 0.15) * (cMin * 100 * 0.45) ** 2 / (ha['M'] * ha['gbe'])
+        kinds = ['recA'] + [rng.choice(['recA', 'recB']) for _ in range(rng.randint(1, 2))]
+    rng.shuffle(kinds)
+    hostcls = type(host).__name__
+    models, desc = [], []
+    for kd in kinds:
+        m, d = make_coupling_model(kd, rng)
+        models.append(m); desc.append(d)
+    nm = len(models)
+    cls = [type(m).__name__ for m in models]
+    clsid = sorted(set(cls))
+    st = {'g': 0, 'in': 0, 'cap': 1}
+    log, recs = [], []
+    for k, m in enumerate(models):
+        def upd(h, k=k, orig=m.updateCoupledModel):
+            log.append((st['g'], host_index(h), k))
+            return orig(h)
+        m.updateCoupledModel = upd          # instance attribute: type(model) is unchanged
+
+    def state(k):
+        m = models[k]
+        if desc[k]['kind'] == 'strength':
+            return (0 if m.rss is None else int(m.rss.shape[0]), 0 if m.ls is None else int(m.ls.shape[0]),
+                    0 if m.solidStrength is None else len(m.solidStrength))
+        if desc[k]['kind'] == 'grain':
+            return (len(m.time), len(m.avgR), float(m.time[-1]), float(m.pbm.ThirdMoment()))
+        return (len(m.seen),)
+
+    orig_pp = host.postProcess
+
+    def pp(t, x):
+        st['g'] += 1                       # the update calls of this host step carry its number
+        res_ = orig_pp(t, x)
+        n = host_index(host)
+        tn = host_time(host)
+        tp = float(host.pData.time[n - 1]) if hasattr(host, 'pData') else float(host.time[-2])
+        recs.append(dict(g=st['g'], n=n, t=tn, dt=tn - tp, states=[state(k) for k in range(nm)]))
+        st['in'] += 1
+        if st['in'] >= st['cap']:
+            raise kwnruns.StopRun()
+        return res_
+    host.postProcess = pp                  # GenericModel.solve hands self.postProcess to the solver
+
+    # ---- the operations
+    ops, lops = [], []                     # everything that happened / what the coupling-list machine sees
+    order = []                             # attached = added and not cleared by the user (the oracle's own bookkeeping)
+    ever = [False] * nm
+    n_upd = [0] * nm                       # updates each model must have received
+    exp_clock = [float(m.time[-1]) if desc[k]['kind'] == 'grain' else 0.0 for k, m in enumerate(models)]
+    reset_since = [False] * nm             # host.reset() since the model's attachment
+    nV = nR = 0
+    cov = {'over_reset': 0}
+    L = rng.randint(6, 11)
+    maxR = 2 if hostkind == 'kwn' else 3
+    ok = True
+
+    def fail(key, what, obs=None, req=None):
+        out.append((key, what, obs, req))
+
+    def situation(k):
+        if k not in order:
+            return 'detached-by-clearCouplingModels' if ever[k] else 'never-attached'
+        return 'attached-before-host-reset' if reset_since[k] else 'no-host-reset-since-attachment'
+
+    def check_steps(where):
+        """every host step recorded during the last solve call"""
+        for rec in recs:
+            if any(reset_since[k] for k in order):
+                cov['over_reset'] += 1          # a host step with a model attached BEFORE a host.reset()
+            for k in order:
+                n_upd[k] += 1
+                if desc[k]['kind'] == 'grain':
+                    exp_clock[k] += rec['dt']
+            got = [(n, k) for g_, n, k in log if g_ == rec['g']]
+            want = [(rec['n'], k) for k in order]
+            at = '%s, host step %d (t = %r)' % (where, rec['n'], rec['t'])
+            if got != want:
+                bad = next((k for k in range(nm) if sum(1 for _, j in got if j == k) != (1 if k in order else 0)), None)
+                if bad is None:
+                    fail('coupled-model-updates:host-history:%s:order-or-index' % hostcls, '%s: update calls (host index, model) %r' % (at, got), got, want)
+                else:
+                    c = sum(1 for _, j in got if j == bad)
+                    fail('coupled-model-updates:host-history:%s:%s' % (hostcls, situation(bad)),
+                         '%s: %s #%d (%s) received %d update calls at this host step; attached models: %r'
+                         % (at, cls[bad], bad, situation(bad), c, [('%s #%d' % (cls[j], j)) for j in order]), c, 1 if bad in order else 0)
+                return False
+            for k in range(nm):
+                if not ever[k]:
+                    continue
+                s_, kd = rec['states'][k], desc[k]['kind']
+                who = '%s #%d (%s)' % (cls[k], k, situation(k))
+                if kd == 'strength':
+                    wantr = 0 if n_upd[k] == 0 else n_upd[k] + 1
+                    if s_ != (wantr, wantr, wantr):
+                        fail('strength-history-misaligned:host-history:%s:%s' % (hostcls, situation(k)),
+                             '%s: %s has %d/%d/%d entries (rss/ls/ss), it was attached for %d host steps' % ((at, who) + s_ + (n_upd[k],)), list(s_), wantr)
+                        return False
+                elif kd == 'grain':
+                    if not close(s_[2], exp_clock[k], 1e-9):
+                        fail('grain-clock-misaligned:host-history:%s:%s' % (hostcls, situation(k)),
+                             '%s: clock of %s is %r, the host advanced by %r while it was attached (%d host steps)' % (at, who, s_[2], exp_clock[k], n_upd[k]),
+                             s_[2], exp_clock[k])
+                        return False
+                    if s_[0] != s_[1] or (k in order and not close(s_[3], 1.0, 1e-9)):
+                        fail('coupled-grain-volume:host-history:%s' % situation(k), '%s: %s: time/avgR lengths %d/%d, grain volume %r' % (at, who, s_[0], s_[1], s_[3]), s_[3], 1.0)
+                        return False
+                elif s_[0] != n_upd[k]:
+                    fail('coupled-model-updates:host-history:%s:%s' % (hostcls, situation(k)), '%s: %s saw %d host steps, attached for %d' % (at, who, s_[0], n_upd[k]), s_[0], n_upd[k])
+                    return False
+        return True
+
+    i = 0
+    while ok and (i < L or nV < 2 or nR < 1 or not ops or ops[-1][0] != 'V'):
+        i += 1
+        free = [k for k in range(nm) if k not in order]
+        grains = [k for k in range(nm) if desc[k]['kind'] == 'grain']
+        if i > 3 * L:
+            kind = 'V' if nR >= 1 else 'R'
+        elif i == 1 and free and rng.random() < 0.8:
+            kind = 'A'
+        else:
+            kind = rng.choices(['A', 'V', 'R', 'C', 'G'],
+                               [3 if any(not ever[k] for k in free) else 1 if free else 0, 3, 2 if nR < maxR else 0,
+                                0.5 if order else 0, 1 if grains else 0])[0]
+        if kind == 'A':
+            new = [k for k in free if not ever[k]]
+            k = rng.choice(new if new else free)
+            before = list(host.couplingModels)
+            snap = [state(j) for j in range(nm)]
+            host.addCouplingModel(models[k]); ops.append('A %d' % k); lops.append('A %d %d' % (k, clsid.index(cls[k])))
+            order.append(k); ever[k] = True; reset_since[k] = False
+            real = list(host.couplingModels)
+            if not (len(real) == len(before) + 1 and all(x is y for x, y in zip(before, real)) and real[-1] is models[k]):
+                fail('attach-alters-coupling-list:host-history:%s' % cls[k], 'addCouplingModel(%s #%d) with %r attached: the list is now %r'
+                     % (cls[k], k, [type(x).__name__ for x in before], [type(x).__name__ for x in real]), [type(x).__name__ for x in real], [type(x).__name__ for x in before] + [cls[k]])
+            if [state(j) for j in range(nm)] != snap:
+                fail('attach-alters-model-history', 'addCouplingModel(%s #%d) changed the history of a model' % (cls[k], k), None, 'unchanged'); ok = False
+        elif kind == 'C':
+            host.clearCouplingModels(); ops.append('C'); lops.append('C'); order = []
+            if len(host.couplingModels) != 0:
+                fail('clear-leaves-models', 'clearCouplingModels left %d models attached' % len(host.couplingModels), len(host.couplingModels), 0); ok = False
+        elif kind == 'R':
+            before = list(host.couplingModels)
+            snap = [state(j) for j in range(nm)]
+            host.reset(); ops.append('R'); lops.append('R'); nR += 1
+            for k in order:
+                reset_since[k] = True
+            if hostkind == 'kwn' and rng.random() < 0.5:     # the user sets the size grid again (reset() builds default grids)
+                host.setPBMParameters(**pbm); ops.append('P')
+            real = list(host.couplingModels)
+            if not (len(real) == len(before) and all(x is y for x, y in zip(before, real))):
+                lost = [x for x in before if not any(x is y for y in real)]
+                fail('host-reset-alters-coupling-list:%s:%s' % (hostcls, 'detaches' if lost else 'reorders-or-adds'),
+                     '%s.reset() with %r attached: the list is now %r (after %r)' % (hostcls, [type(x).__name__ for x in before], [type(x).__name__ for x in real], ' '.join(ops[:-1])),
+                     [type(x).__name__ for x in real], [type(x).__name__ for x in before])
+                # go on: the models the user attached and did not clear are checked after every host step below
+            if host_index(host) != 0:
+                fail('host-reset-keeps-index:%s' % hostcls, 'host index after reset() is %d' % host_index(host), host_index(host), 0); ok = False
+            if [state(j) for j in range(nm)] != snap:
+                fail('host-reset-alters-model-history:%s' % hostcls, '%s.reset() changed the history of a coupling model' % hostcls, None, 'unchanged'); ok = False
+        elif kind == 'G':
+            k = rng.choice(grains)
+            models[k].reset(); ops.append('G %d' % k)
+            exp_clock[k] = 0.0
+            v = float(models[k].pbm.ThirdMoment())
+            if not close(v, 1.0, 1e-9):
+                fail('gg-volume:after-reset:loaded-by-%s' % desc[k]['loader'], 'reset() of %s #%d (%s) after %r: grain volume %r'
+                     % (cls[k], k, situation(k), ' '.join(ops[:-1]), v), v, 1.0); ok = False
+            if float(models[k].time[-1]) != 0.0 or len(models[k].time) != 1:
+                fail('gg-reset-not-loaded-state:clock', 'clock of %s #%d after its reset() is %r' % (cls[k], k, float(models[k].time[-1])), None, [0.0]); ok = False
+        else:
+            del recs[:]
+            st['in'] = 0
+            solver = SolverType.EXPLICITEULER if rng.random() < 0.5 else SolverType.RK4
+            if hostkind == 'kwn':
+                st['cap'] = rng.randint(1, 4)
+                simT = rng.uniform(0.5, 3.0)
+            else:
+                st['cap'] = rng.choice([1, 2, 6, 1000])
+                simT = hdt
+            try:
+                host.solve(simT, solverType=solver)
+            except kwnruns.StopRun:
+                pass
+            nV += 1
+            ops.append('V %d' % len(recs)); lops += ['S'] * len(recs)
+            ok = check_steps('solve call %d (after %r)' % (nV, ' '.join(ops[:-1])))
+            if ok and recs:           # the last strength row belongs to the host's current state
+                hn = host_index(host)
+                for k in order:
+                    m = models[k]
+                    if desc[k]['kind'] == 'strength':
+                        row = [float(m.rssterm(host, p)) for p in range(len(host.phases))]
+                        if [float(x) for x in m.rss[-1]] != row or float(m.solidStrength[-1]) != float(m.ssStrength(host, hn)):
+                            fail('strength-history-row:host-history:%s' % situation(k), 'last row of %s #%d is not the row of host step %d' % (cls[k], k, hn),
+                                 [float(x) for x in m.rss[-1]], row); ok = False
+                        if np.any(m.rss < 0) or np.any(m.ls < 0) or not np.all(np.isfinite(m.rss)) or not np.all(np.isfinite(m.ls)):
+                            fail('history-values', 'rss / Ls history of %s #%d has a negative or non-finite entry' % (cls[k], k), None, '>= 0, finite'); ok = False
+    ids = [next((j for j in range(nm) if models[j] is x), -1) for x in host.couplingModels]
+    return dict(out=out, ops=ops, lops=lops, log=list(log), ids=ids, n=host_index(host), g=st['g'], kinds=kinds, desc=desc, host=hostkind,
+                nV=nV, nR=nR, steps=st['g'], over_reset=cov['over_reset'], models=nm)
+
+
+def chk_gghist(a):
+    return gghist_impl(a)['out']
+
+
+def chk_hhist(a):
+    return hhist_impl(a)['out']
+
+
 def chk_couple(a):
     return couple_impl(a)['out']
 
@@ -954,7 +1334,7 @@ def chk_coupled(args):
 CHECKS = {'strength': chk_strength, 'limits': chk_limits, 'zener': chk_zener, 'normalize': chk_normalize,
           'ggrun': lambda a: chk_ggrun(a)[0], 'gen': lambda v: (gen_impl(v), [])[1], 'contrib': lambda a: (contrib_impl(a), [])[1],
           'hist': lambda a: chk_hist(a)[0], 'ggcalls': lambda a: (gg_impl(a), [])[1], 'ggcase': lambda a: (gg_case(a), [])[1],
-          'coupled': chk_coupled, 'couple': chk_couple}
+          'coupled': chk_coupled, 'couple': chk_couple, 'gghist': chk_gghist, 'hhist': chk_hhist}
 
 
 def apply_check(res, kind, args):
@@ -1342,6 +1722,47 @@ def corr(ctx, oracle_only=False, scale=1, skip_run=False):
             take([('c18.couple 0 %d %s' % (len(h['ops']), ' '.join(h['ops'])) if h['ops'] else 'c18.couple 0 0',
                    ('couple', {'part': 'G', **a, 'ops': ' '.join(h['ops'])}, h['ids'], h['n'], h['log']))])
 
+    # ---------------- (H) grain-growth histories: load / reset / solve / coupled host step, oracle after every operation
+    for it in range(ctx.n(40, 2500) * scale):
+        a = {'s': rng.getrandbits(48), 'coupled': it % 3 == 2}
+        case = {'chk': 'gghist', 'args': a}
+        ok, h = vlib.guarded(res, 'grain-growth-history', case, gghist_impl, a)
+        if not ok:
+            continue
+        for key, what, obs, req in h['out'][:3]:
+            res.violate(key, what, case, obs, req)
+        sq = ''.join(h['ops'])
+        res.case(('H', a['s'], a['coupled']), any(c in 'LF' for c in sq) and 'R' in sq)
+        res.count('H:histories'); res.count('H:operations', len(h['ops']))
+        for c, nm_ in (('L', 'LoadDistribution'), ('F', 'LoadDistributionFunction'), ('R', 'reset'), ('S', 'solve'), ('H', 'coupled-host-step')):
+            res.count('H:op:' + nm_, sq.count(c))
+        import re as _re
+        res.count('H:reset-after-data-load-then-solve', len(_re.findall(r'L[^LF]*R[SH]', sq)))
+        res.count('H:reset-after-function-load-then-solve', len(_re.findall(r'F[^LF]*R[SH]', sq)))
+        if len([x for x in res.samples if x.get('part') == 'H']) < 1:
+            res.sample({'part': 'H', **a, 'ops': sq, 'bins': h['bins']}, cap=8)
+        if use_model and not h['out']:
+            take([(h['line'], ('ggload', {'part': 'H', **a, 'ops': sq}, h['states']))])
+
+    # ---------------- (I) host histories: attach / clear / host.reset() / model reset / solve calls in any order on real hosts
+    for it in range((ctx.n(6, 40) + ctx.n(30, 600)) * scale):
+        a = {'s': rng.getrandbits(48), 'host': 'kwn' if it < ctx.n(6, 40) * scale else 'graingrowth'}
+        case = {'chk': 'hhist', 'args': a}
+        ok, h = vlib.guarded(res, 'host-history', case, hhist_impl, a)
+        if not ok:
+            continue
+        for key, what, obs, req in h['out'][:3]:
+            res.violate(key, what, case, obs, req)
+        res.case(('I', a['host'], a['s']), h['steps'] > 0 and h['over_reset'] > 0)
+        res.count('I:host=%s' % a['host']); res.count('I:solve-calls', h['nV']); res.count('I:host-resets', h['nR']); res.count('I:host-steps', h['steps'])
+        res.count('I:host-steps-with-a-model-attached-before-a-host-reset', h['over_reset'])
+        res.count('I:clear', h['ops'].count('C')); res.count('I:coupled-model-reset', sum(1 for o in h['ops'] if o[0] == 'G'))
+        if len([x for x in res.samples if x.get('part') == 'I']) < 2:
+            res.sample({'part': 'I', **a, 'kinds': h['kinds'], 'ops': ' '.join(h['ops'])}, cap=10)
+        if use_model and not h['out']:
+            take([('c18.hcouple 0 %d %s' % (len(h['lops']), ' '.join(h['lops'])) if h['lops'] else 'c18.hcouple 0 0',
+                   ('hcouple', {'part': 'I', **a, 'ops': ' '.join(h['ops'])}, h['ids'], h['n'], h['g'], h['log']))])
+
     # ---------------- (E) grain growth
     for _ in range(ctx.n(400, 30000) * scale):
         cMin = 10 ** rng.uniform(-8, -6)
@@ -1473,6 +1894,34 @@ def compare(res, verb, t, aft):
         if log is not None and mlog != [tuple(x) for x in log]:
             bad = next((i for i, (x, y) in enumerate(zip(mlog, log)) if tuple(x) != tuple(y)), min(len(mlog), len(log)))
             res.disagree('updateCoupledModel calls (host index, model) in call order', dict(case, first_difference=bad), [list(x) for x in log[bad:bad + 4]], [list(x) for x in mlog[bad:bad + 4]])
+        res.traces += 1
+    elif kind == 'hcouple':
+        _, _, ids, n, g_, log = aft
+        mids = t.nats(); mn = t.nat(); mg = t.nat(); k = t.nat()
+        mlog = [(t.nat(), t.nat(), t.nat()) for _ in range(k)]
+        if mids != list(ids) or mn != n or mg != g_:
+            res.disagree('coupling list / host index / host steps after the history (reset keeps the list)', case, [list(ids), n, g_], [mids, mn, mg]); return
+        if mlog != [tuple(x) for x in log]:
+            bad = next((i for i, (x, y) in enumerate(zip(mlog, log)) if tuple(x) != tuple(y)), min(len(mlog), len(log)))
+            res.disagree('updateCoupledModel calls (host step, host index, model) in call order', dict(case, first_difference=bad),
+                         [list(x) for x in log[bad:bad + 4]], [list(x) for x in mlog[bad:bad + 4]])
+        res.traces += 1
+    elif kind == 'ggload':
+        states = aft[2]
+        k = t.nat()
+        if k != len(states):
+            res.disagree('grain-growth history: number of operations', case, len(states), k); return
+        for i, (psd, bounds, tl, v) in enumerate(states):
+            mp, mb, mt, mv = t.flts(), t.flts(), t.flt(), t.flt()
+            c2 = dict(case, operation=i + 1)
+            sc = float(np.max(np.abs(psd))) if len(psd) else 0.0
+            if len(mp) != len(psd) or not vlib.all_close(psd, mp, 1e-9, sc * 1e-12):
+                res.disagree('distribution after operation %d of the grain-growth history (load = Normalize of the raw distribution, reset = backup taken after Normalize)' % (i + 1),
+                             c2, [float(x) for x in psd[:4]], mp[:4]); return
+            if len(mb) != len(bounds) or not vlib.all_close(bounds, mb, 1e-12):
+                res.disagree('grid after operation %d of the grain-growth history' % (i + 1), c2, [len(bounds), float(bounds[0]), float(bounds[-1])], [len(mb)] + mb[:1] + mb[-1:]); return
+            if not close(tl, mt, 1e-12) or not close(v, mv, 1e-9):
+                res.disagree('clock / grain volume after operation %d of the grain-growth history' % (i + 1), c2, [tl, v], [mt, mv]); return
         res.traces += 1
     elif kind == 'rssls':
         mr, ml = t.flt(), t.flt()
